@@ -21,7 +21,10 @@ def run(rep, tier, seed):
                                      "max_steps": 120 if quick else 250}) for i in range(n)]
     results = mc.pool_map(jc.model_worker, jobs)
     for r in results:      # python-level findings that concern the gridding itself
-        r["findings"] = [f for f in r["findings"] if f.get("stage") == "gridding"]
+        # ... and, all runs here being gridded, steps whose reported counts are not event counts (what the per-interval
+        # counts are summed from)
+        r["findings"] = [f for f in r["findings"] if f.get("stage") == "gridding"
+                         or f.get("what", "").startswith("an exact step does not report exactly one event")]
     judge(rep, results, {"grid"}, "C15")
     up = sum(1 for r in results for rej in r["rejected"] if rej["label"] != "grid")
     rep.cov["runs_rejected_upstream"] = up
